@@ -14,6 +14,7 @@ for d in sorted(os.listdir(root)):
     r=res.get(d)
     if m.get('status','').startswith('neutralised'): verdict='neutralised by a fix (not counted)'
     elif m.get('status','').startswith('superseded'): verdict='superseded (patch no longer applies)'
+    elif m.get('status','').startswith('outside-statement') and (r is None or r[2]=='exit=0'): verdict='not caught: outside the statement (see meta.json status_note)'
     elif r is None: verdict='not yet run'
     elif r[2]=='exit=1': verdict='caught: '+(r[4].strip() if len(r)>4 else '')
     elif r[2]=='exit=0': verdict='**missed by its own quick check**'
